@@ -117,7 +117,7 @@ func termOracle(sp *Spec, x *X, writes []OutWrite, w, h int) (string, string, *t
 }
 
 func c04Oracle(sp *Spec, x *X, res *mcrt.Result) (string, string) {
-	if x.Events["pty-unavailable"] > 0 {
+	if x.EventCount("pty-unavailable") > 0 {
 		return "", ""
 	}
 	if x.WaitStep == 0 {
